@@ -21,20 +21,23 @@ import (
 
 // OrchArgs configures an orchestrated check.
 type OrchArgs struct {
-	Prop      string
-	Tier      string
-	Seed      uint64
-	Budget    time.Duration // wall-clock budget for running simulations (all phases together)
-	Workers   int
-	Bin       string // plain build
-	RaceBin   string // race build ("" if not built)
-	HangLimit time.Duration
-	MaxRuns   int // per worker (0 = unlimited within budget)
+	Prop         string
+	Tier         string
+	Seed         uint64
+	Budget       time.Duration // wall-clock budget for running simulations (all phases together)
+	Workers      int
+	Bin          string // plain build
+	RaceBin      string // race build ("" if not built)
+	YieldBin     string // instrumented build ("" if not built)
+	YieldRaceBin string // instrumented race build
+	HangLimit    time.Duration
+	MaxRuns      int // per worker (0 = unlimited within budget)
 }
 
 type workerState struct {
 	id       int
 	race     bool
+	instr    bool
 	cmd      *exec.Cmd
 	stderr   *bytes.Buffer
 	seed     uint64
@@ -49,12 +52,13 @@ type workerState struct {
 }
 
 type crashCase struct {
-	seed uint64
-	run  int
-	race bool
-	exit int
-	hang bool
-	text string
+	seed  uint64
+	run   int
+	race  bool
+	instr bool
+	exit  int
+	hang  bool
+	text  string
 }
 
 // Agg is what the orchestrator accumulates for the evidence file.
@@ -190,6 +194,14 @@ func runPhase(a OrchArgs, info *props.Info, seed uint64, budget time.Duration, a
 			raceWorkers = n
 		}
 	}
+	// flavour of worker i: race for i < raceWorkers; among each half, every other worker uses the
+	// instrumented build when it exists
+	flavour := func(i int) (race, instr bool) {
+		race = i < raceWorkers
+		// every other non-race worker uses the instrumented build when it exists
+		instr = !race && a.YieldBin != "" && info.NeedsRace && i%2 == 1
+		return
+	}
 	type evt struct {
 		w   *workerState
 		msg *Msg
@@ -203,11 +215,9 @@ func runPhase(a OrchArgs, info *props.Info, seed uint64, budget time.Duration, a
 		maxRuns = 1 << 30
 	}
 	for i := 0; i < n; i++ {
-		w := &workerState{id: i, race: i < raceWorkers, seed: seed, inflight: -1, lastBeat: time.Now(), stderr: &bytes.Buffer{}}
-		bin := a.Bin
-		if w.race {
-			bin = a.RaceBin
-		}
+		w := &workerState{id: i, seed: seed, inflight: -1, lastBeat: time.Now(), stderr: &bytes.Buffer{}}
+		w.race, w.instr = flavour(i)
+		bin := a.binFor(w.race, w.instr)
 		w.cmd = exec.Command(bin, "worker", "-prop", a.Prop, "-tier", a.Tier, "-seed", fmt.Sprint(seed),
 			"-start", fmt.Sprint(i), "-stride", fmt.Sprint(n), "-budget", fmt.Sprint(budget.Seconds()), "-maxruns", fmt.Sprint(maxRuns))
 		w.cmd.Env = workerEnv(w.race, "")
@@ -325,14 +335,26 @@ func runPhase(a OrchArgs, info *props.Info, seed uint64, budget time.Duration, a
 		}
 		switch {
 		case w.killed:
-			crashes = append(crashes, crashCase{seed: seed, run: w.inflight, race: w.race, hang: true, text: headTail(w.stderr.String(), 3000)})
+			crashes = append(crashes, crashCase{seed: seed, run: w.inflight, race: w.race, instr: w.instr, hang: true, text: headTail(w.stderr.String(), 3000)})
 		case w.exit != 0 && w.exit != 1 && len(w.harness) == 0:
-			crashes = append(crashes, crashCase{seed: seed, run: w.inflight, race: w.race, exit: w.exit, text: headTail(w.stderr.String(), 3000)})
+			crashes = append(crashes, crashCase{seed: seed, run: w.inflight, race: w.race, instr: w.instr, exit: w.exit, text: headTail(w.stderr.String(), 3000)})
 		case w.exit == 2 && len(w.harness) > 0:
 			// already recorded as trouble
 		}
 	}
 	return
+}
+
+func (a OrchArgs) binFor(race, instr bool) string {
+	switch {
+	case race && instr && a.YieldRaceBin != "":
+		return a.YieldRaceBin
+	case instr && !race && a.YieldBin != "":
+		return a.YieldBin
+	case race && a.RaceBin != "":
+		return a.RaceBin
+	}
+	return a.Bin
 }
 
 func tail(s string, n int) string {
@@ -353,22 +375,19 @@ func headTail(s string, n int) string {
 
 // confirmReplay replays a file in a fresh process; true when the violation reproduces.
 func confirmReplay(a OrchArgs, path string, race bool) (bool, string) {
-	bin := a.Bin
-	if race && a.RaceBin != "" {
-		bin = a.RaceBin
+	instr := false
+	if rf, err := ReadReplay(path); err == nil {
+		race, instr = rf.Race, rf.Instr
 	}
-	cmd := exec.Command(bin, "replay", path)
+	cmd := exec.Command(a.binFor(race, instr), "replay", path)
 	cmd.Env = workerEnv(race, "")
 	out, err := cmd.CombinedOutput()
 	return exitCodeOf(err) == 1, tail(string(out), 3000)
 }
 
 // runOne executes a single run (by seed or by tape file) in a fresh process and reports how it ended.
-func runOne(a OrchArgs, race bool, args []string, limit time.Duration) (exit int, hung bool, output string) {
-	bin := a.Bin
-	if race && a.RaceBin != "" {
-		bin = a.RaceBin
-	}
+func runOne(a OrchArgs, race, instr bool, args []string, limit time.Duration) (exit int, hung bool, output string) {
+	bin := a.binFor(race, instr)
 	cmd := exec.Command(bin, args...)
 	cmd.Env = workerEnv(race, "")
 	var buf bytes.Buffer
@@ -392,6 +411,12 @@ func runOne(a OrchArgs, race bool, args []string, limit time.Duration) (exit int
 		}
 		return -1, true, headTail(buf.String(), 5000)
 	}
+}
+
+// crashFindingSignatures: open known findings that end a run abnormally, recognised by a frame
+// in the goroutine dump.
+var crashFindingSignatures = map[string]string{
+	"xpath-boolean-target-hang": "xpath.(*booleanQuery).Select",
 }
 
 // crashClause maps an abnormal process end to the clause of the property that owns it.
@@ -430,7 +455,7 @@ func handleCrash(a OrchArgs, info *props.Info, cr crashCase) (violationLine, tro
 	tapeFile := filepath.Join(dir, fmt.Sprintf(".tape-%s-%d-%d", a.Prop, cr.seed, cr.run))
 	defer os.Remove(tapeFile)
 	limit := 2 * a.HangLimit
-	exit, hung, out := runOne(a, cr.race, []string{"one", "-prop", a.Prop, "-tier", a.Tier, "-seed", fmt.Sprint(cr.seed), "-run", fmt.Sprint(cr.run), "-tapeout", tapeFile}, limit)
+	exit, hung, out := runOne(a, cr.race, cr.instr, []string{"one", "-prop", a.Prop, "-tier", a.Tier, "-seed", fmt.Sprint(cr.seed), "-run", fmt.Sprint(cr.run), "-tapeout", tapeFile}, limit)
 	same := (cr.hang && hung) || (!cr.hang && !hung && exit == cr.exit)
 	if cr.hang && !hung && exit != 0 && exit != 1 {
 		// the worker was declared hung while the run was on its way to an unrecoverable runtime
@@ -441,11 +466,22 @@ func handleCrash(a OrchArgs, info *props.Info, cr crashCase) (violationLine, tro
 		return "", fmt.Sprintf("run %d (seed %d) ended abnormally in a worker (exit %d, hang=%v) but not when re-run alone (exit %d, hang=%v); worker stderr:\n%s", cr.run, cr.seed, cr.exit, cr.hang, exit, hung, cr.text)
 	}
 	clause := crashClause(a.Prop, cr, out)
+	if clause != "" {
+		// open known findings that show as a hang / crash are matched on the goroutine dump
+		if open, text, err := LoadOpenFindings(a.Prop); err == nil {
+			for slug, sig := range crashFindingSignatures {
+				if open[slug] && strings.Contains(out, sig) {
+					fmt.Printf("KNOWN-FINDING: property=%s finding=%s %s (run %d, seed %d)\n", a.Prop, slug, text[slug], cr.run, cr.seed)
+					return "", ""
+				}
+			}
+		}
+	}
 	if clause == "" {
 		return "", fmt.Sprintf("run %d (seed %d) reproducibly ends abnormally (exit %d, hang=%v); this is outside what %s claims (see C03/C14) and is reported as harness trouble:\n%s", cr.run, cr.seed, exit, hung, a.Prop, out)
 	}
 	vals, labels := readTapeFile(tapeFile)
-	rf := &ReplayFile{Property: a.Prop, Clause: clause, Tier: a.Tier, Seed: cr.seed, Run: cr.run, Race: cr.race,
+	rf := &ReplayFile{Property: a.Prop, Clause: clause, Tier: a.Tier, Seed: cr.seed, Run: cr.run, Race: cr.race, Instr: cr.instr,
 		Mode: "crash", Tape: vals, Labels: labels, ExitCode: exit, Output: strings.Split(out, "\n")}
 	if hung {
 		rf.Mode = "hang"
@@ -471,7 +507,7 @@ func handleCrash(a OrchArgs, info *props.Info, cr crashCase) (violationLine, tro
 		}
 	}
 	// confirm from the tape
-	rc, _ := ReplayCrash(a.Bin, a.RaceBin, path, limit)
+	rc, _ := ReplayCrash(a.binFor(false, cr.instr), a.binFor(true, cr.instr), path, limit)
 	if rc != 1 {
 		return "", fmt.Sprintf("crash of run %d reproduces by seed but not from its recorded tape %s", cr.run, path)
 	}
@@ -513,7 +549,7 @@ func ReplayCrash(bin, raceBin, path string, limit time.Duration) (int, string) {
 	if rf.Race && raceBin == "" {
 		return 2, "replay needs the race build"
 	}
-	exit, hung, out := runOne(a, rf.Race, []string{"replay-inproc", path}, limit)
+	exit, hung, out := runOne(a, rf.Race, false, []string{"replay-inproc", path}, limit)
 	if rf.Mode == "hang" {
 		if hung {
 			return 1, out
@@ -545,7 +581,7 @@ func shrinkCrash(a OrchArgs, rf *ReplayFile, path string, limit time.Duration) (
 		if ioutil.WriteFile(tmp, b, 0o644) != nil {
 			return false
 		}
-		rc, _ := ReplayCrash(a.Bin, a.RaceBin, tmp, limit)
+		rc, _ := ReplayCrash(a.binFor(false, rf.Instr), a.binFor(true, rf.Instr), tmp, limit)
 		if rc == 1 {
 			st.Accepted++
 			return true
